@@ -14,11 +14,19 @@
       [skip_execution]: on the cached path that is after the transactions ran (in
       ProcessProposal), on the fresh path before.
 
+    The request fields the application reads besides the transactions -- height, block time,
+    proposer address, next validators hash, last commit (round + votes), misbehavior -- form the
+    record [bmeta]; the cached-proposal comparison [proposal_eqb] compares them field by field,
+    in the order of the derived [PartialEq] of [CachedProposal].
+
     Everything of the state except the oracle store is an abstract ledger [L] with deterministic
-    functions (section variables): [l_pre] (upgrade + begin_block), [l_exec] (one transaction:
+    functions (section variables): [l_pre] (upgrade + begin_block: it sees the whole [bmeta], in
+    particular the misbehavior list -- AuthorityComponent::begin_block removes the named
+    validators --, the block time and the next validators hash), [l_exec] (one transaction:
     nonce, fees, all non-oracle actions, sudo check of oracle actions), [l_check]
     (CheckedTransaction::new on the non-oracle part), [l_post] (end_block, fee payout, deposits,
-    sequencer block, consensus params; yields the validator / consensus-param updates [R]),
+    sequencer block -- stored under the CometBFT block hash, with time and proposer --, consensus
+    params; yields the validator / consensus-param updates [R]),
     [commit_of] (rollup data commitments), [uh_at] (upgrade change hashes due at a block). *)
 From Astria Require Import Base.Bounded.
 
@@ -204,7 +212,9 @@ Record tx := {
   tx_nonce : N;
   tx_group : N;            (* 1 UnbundleableSudo < 2 BundleableSudo < 3 UnbundleableGeneral < 4 BundleableGeneral *)
   tx_body : N;             (* the non-oracle actions: opaque, interpreted by the ledger functions only *)
-  tx_oacts : list oaction  (* the CurrencyPairsChange actions, in order *)
+  tx_oacts : list oaction; (* the CurrencyPairsChange actions, in order *)
+  tx_vupd : list (N * N)   (* the ValidatorUpdate actions (validator, power), in order; interpreted
+                              by the ledger functions only *)
 }.
 
 Definition GROUP_TOP : N := 4.
@@ -223,10 +233,13 @@ Definition oaction_eqb (a b : oaction) : bool :=
   | _, _ => false
   end.
 
+Definition price_eqb (a b : N * N) : bool := N.eqb (fst a) (fst b) && N.eqb (snd a) (snd b).
+
 Definition tx_eqb (a b : tx) : bool :=
   N.eqb (tx_id a) (tx_id b) && N.eqb (tx_signer a) (tx_signer b) &&
   N.eqb (tx_nonce a) (tx_nonce b) && N.eqb (tx_group a) (tx_group b) &&
-  N.eqb (tx_body a) (tx_body b) && list_eqb oaction_eqb (tx_oacts a) (tx_oacts b).
+  N.eqb (tx_body a) (tx_body b) && list_eqb oaction_eqb (tx_oacts a) (tx_oacts b) &&
+  list_eqb price_eqb (tx_vupd a) (tx_vupd b).
 
 (** The [txs] field of a CometBFT block as the app sees it after [ExpandedBlockData] parsing. *)
 Record bdata := {
@@ -238,19 +251,43 @@ Record bdata := {
   d_txs : list tx              (* user-submitted transactions *)
 }.
 
-Definition price_eqb (a b : N * N) : bool := N.eqb (fst a) (fst b) && N.eqb (snd a) (snd b).
-
 Definition bdata_eqb (a b : bdata) : bool :=
   Bool.eqb (d_wf a) (d_wf b) && Bool.eqb (d_ecvalid a) (d_ecvalid b) &&
   list_eqb price_eqb (d_prices a) (d_prices b) && N.eqb (d_uh a) (d_uh b) &&
   list_eqb N.eqb (d_commit a) (d_commit b) && list_eqb tx_eqb (d_txs a) (d_txs b).
 
-(** CachedProposal: time, proposer, last commit, misbehavior, height, next validators hash are
-    folded into one comparable value [meta]; [txs] is the block data. *)
-Definition proposal : Type := N * bdata.
-Definition proposal_eqb (a b : proposal) : bool := N.eqb (fst a) (fst b) && bdata_eqb (snd a) (snd b).
+(** The fields of a PrepareProposal / ProcessProposal / FinalizeBlock request which the
+    application reads besides [txs] and the block hash. *)
+Record bmeta := {
+  m_height : N;
+  m_time : N;                  (* block time: put_block_timestamp, IBC consensus state, price timestamps,
+                                  sequencer block header *)
+  m_proposer : N;              (* proposer address: sequencer block header *)
+  m_nvh : N;                   (* next validators hash: IBC consensus state *)
+  m_lc_round : N;              (* local / proposed / decided last commit: round ... *)
+  m_lc_votes : list (N * N);   (* ... and votes (validator, block id flag) *)
+  m_misb : list N              (* misbehavior: the validators the evidence names *)
+}.
 
-Record block := { b_hash : N; b_meta : N; b_data : bdata }.
+Definition commit_eqb (r1 : N) (v1 : list (N * N)) (r2 : N) (v2 : list (N * N)) : bool :=
+  N.eqb r1 r2 && list_eqb price_eqb v1 v2.
+
+(** CachedProposal (app/execution_state.rs) = the request fields + [txs]; its derived [PartialEq]
+    compares, in declaration order: time, proposer_address, txs, proposed_last_commit,
+    misbehavior, next_validators_hash, height. *)
+Definition proposal : Type := bmeta * bdata.
+Definition proposal_eqb (a b : proposal) : bool :=
+  let (ma, da) := a in
+  let (mb, db) := b in
+  N.eqb (m_time ma) (m_time mb) &&
+  N.eqb (m_proposer ma) (m_proposer mb) &&
+  bdata_eqb da db &&
+  commit_eqb (m_lc_round ma) (m_lc_votes ma) (m_lc_round mb) (m_lc_votes mb) &&
+  list_eqb N.eqb (m_misb ma) (m_misb mb) &&
+  N.eqb (m_nvh ma) (m_nvh mb) &&
+  N.eqb (m_height ma) (m_height mb).
+
+Record block := { b_hash : N; b_meta : bmeta; b_data : bdata }.
 
 (** an executed transaction and whether its result code is Ok *)
 Definition etx : Type := tx * bool.
@@ -270,13 +307,15 @@ Inductive err :=
 Section App.
   Variable L : Type.
   Variable R : Type.                               (* validator + consensus-param updates *)
-  Variable l_pre : L -> N -> L.                    (* pre_execute_transactions, by block meta *)
+  Variable l_pre : L -> bmeta -> L.                (* pre_execute_transactions: upgrade, begin_block
+                                                      (misbehavior, time, next validators hash ...) *)
   Variable l_check : L -> tx -> bool.              (* CheckedTransaction::new, non-oracle part *)
   Variable l_exec : L -> tx -> xres L.             (* execution, non-oracle part *)
-  Variable l_post : L -> N -> L * R.               (* end_block .. consensus params *)
+  Variable l_post : L -> N -> bmeta -> L * R.      (* end_block .. consensus params, by block hash and
+                                                      request fields (height, time, proposer) *)
   Variable commit_of : L -> list tx -> list N.     (* rollup data commitments *)
-  Variable uh_at : N -> N.                         (* expected upgrade change hashes *)
-  Variable height_of : N -> N.                     (* block height of a meta *)
+  Variable uh_at : bmeta -> N.                     (* expected upgrade change hashes *)
+  Variable height_of : bmeta -> N.                 (* the height FinalizeBlock stamps prices with *)
 
   Record state := { s_l : L; s_o : ostate }.
 
@@ -313,7 +352,7 @@ Section App.
     {| w_s := s; w_executed := w_executed w; w_result := w_result w |}.
 
   (** [pre_execute_transactions] *)
-  Definition pre_exec (s : state) (meta : N) : state :=
+  Definition pre_exec (s : state) (meta : bmeta) : state :=
     {| s_l := l_pre (s_l s) meta; s_o := s_o s |}.
 
   (** CheckedTransaction::new against one state: all actions are checked against the SAME state *)
@@ -385,7 +424,7 @@ Section App.
     | None => (a, Some EExecState)
     | Some e' =>
         let w := a_working a in
-        let '(l', r) := l_post (s_l (w_s w)) (b_meta b) in
+        let '(l', r) := l_post (s_l (w_s w)) (b_hash b) (b_meta b) in
         let s' := {| s_l := l'; s_o := s_o (w_s w) |} in
         if list_eqb N.eqb (d_commit (b_data b)) (commit_of (s_l (w_s w)) (map fst ex))
         then (with_exec (with_working a {| w_s := s'; w_executed := w_executed w;
@@ -404,7 +443,7 @@ Section App.
 
   (** [App::prepare_proposal]; [prices] = what ProposalHandler::prepare_proposal makes of the local
       last commit ([] when vote extensions are off or the commit does not validate). *)
-  Definition prepare (a : app) (meta : N) (mem : list tx) (prices : list (N * N)) : app * outcome :=
+  Definition prepare (a : app) (meta : bmeta) (mem : list tx) (prices : list (N * N)) : app * outcome :=
     let a0 := new_round a in
     let s1 := pre_exec (a_committed a0) meta in
     let '(sf, inc) := prepare_loop s1 GROUP_TOP mem in
@@ -505,7 +544,7 @@ Section App.
   Definition restart (a : app) : app * outcome := (init_app (a_committed a), ORestarted).
 
   Inductive call :=
-  | CPrepare (meta : N) (mem : list tx) (prices : list (N * N))
+  | CPrepare (meta : bmeta) (mem : list tx) (prices : list (N * N))
   | CProcess (b : block)
   | CFinalize (b : block)
   | CCommit
@@ -530,7 +569,7 @@ Section App.
       *consensus-round decide commit; proposer = [prepare-proposal [process-proposal]],
       non-proposer = [process-proposal]; a crash restarts the process at any point). *)
   Inductive round :=
-  | RProposer (meta : N) (mem : list tx) (prices : list (N * N)) (own_hash : option N)
+  | RProposer (meta : bmeta) (mem : list tx) (prices : list (N * N)) (own_hash : option N)
       (* PrepareProposal; with [Some h]: ProcessProposal of the own proposal, block hash h *)
   | RValidator (b : block)              (* ProcessProposal of somebody's proposal *)
   | RRestart.
@@ -591,11 +630,21 @@ Definition known_f7 (d : bdata) : bool :=
   existsb (fun k => mem_N k (block_touched d)) (block_priced d).
 
 (* ------------------------------------------------------------------------------------------ *)
-(** * A concrete ledger for the extracted driver and the examples: per-signer nonces and the
-    log of executed transaction ids; [tx_body]: 0 executes, 1 fails (fatal), 2 is not even
-    constructible, 3 fails non-fatally (IbcRelay after Blackburn). *)
+(** * A concrete ledger for the extracted driver and the examples: per-signer nonces, the log of
+    executed transaction ids, the validator set, and what begin_block / the sequencer block store
+    keep of the request fields (height, time, next validators hash; block hash and proposer).
+    [tx_body]: 0 executes, 1 fails (fatal), 2 is not even constructible, 3 fails non-fatally
+    (IbcRelay after Blackburn). *)
 
-Record cledger := { cl_nonces : list (N * N); cl_log : list N; cl_height : N }.
+Record cledger := {
+  cl_nonces : list (N * N);
+  cl_log : list N;
+  cl_height : N;               (* put_block_height *)
+  cl_time : N;                 (* put_block_timestamp / IBC consensus state *)
+  cl_nvh : N;                  (* IBC consensus state: next validators hash *)
+  cl_vals : list (N * N);      (* validator set: (validator, power) *)
+  cl_block : N * N             (* the stored sequencer block: (CometBFT block hash, proposer) *)
+}.
 
 Fixpoint nonce_of (k : N) (l : list (N * N)) : N :=
   match l with
@@ -609,23 +658,57 @@ Fixpoint nonce_bump (k : N) (l : list (N * N)) : list (N * N) :=
   | (k', v) :: r => if N.eqb k' k then (k', v + 1) :: r else (k', v) :: nonce_bump k r
   end.
 
-Definition cl_pre (l : cledger) (meta : N) : cledger :=
-  {| cl_nonces := cl_nonces l; cl_log := cl_log l; cl_height := meta |}.
+Definition v_has (k : N) (vs : list (N * N)) : bool := existsb (fun kv => N.eqb (fst kv) k) vs.
+Definition v_remove (k : N) (vs : list (N * N)) : list (N * N) :=
+  filter (fun kv => negb (N.eqb (fst kv) k)) vs.
+Fixpoint v_put (k p : N) (vs : list (N * N)) : list (N * N) :=
+  match vs with
+  | [] => [(k, p)]
+  | (k', p') :: r => if N.eqb k' k then (k', p) :: r else (k', p') :: v_put k p r
+  end.
+
+(** AuthorityComponent::begin_block (post Aspen): every validator named by the evidence that is
+    still in the set is removed *)
+Definition slash (vs : list (N * N)) (misb : list N) : list (N * N) :=
+  fold_left (fun acc k => v_remove k acc) misb vs.
+
+(** CheckedValidatorUpdate: removing (power 0) needs an existing validator which is not the only one *)
+Definition vupd_ok (vs : list (N * N)) (u : N * N) : bool :=
+  negb (N.eqb (snd u) 0) || ((1 <? N.of_nat (length vs)) && v_has (fst u) vs).
+Fixpoint vupd_apply (vs : list (N * N)) (us : list (N * N)) : option (list (N * N)) :=
+  match us with
+  | [] => Some vs
+  | u :: r =>
+      if vupd_ok vs u
+      then vupd_apply (if N.eqb (snd u) 0 then v_remove (fst u) vs else v_put (fst u) (snd u) vs) r
+      else None
+  end.
+
+Definition cl_pre (l : cledger) (m : bmeta) : cledger :=
+  {| cl_nonces := cl_nonces l; cl_log := cl_log l; cl_height := m_height m; cl_time := m_time m;
+     cl_nvh := m_nvh m; cl_vals := slash (cl_vals l) (m_misb m); cl_block := cl_block l |}.
 Definition cl_check (l : cledger) (t : tx) : bool :=
-  (nonce_of (tx_signer t) (cl_nonces l) <=? tx_nonce t) && negb (N.eqb (tx_body t) 2).
+  (nonce_of (tx_signer t) (cl_nonces l) <=? tx_nonce t) && negb (N.eqb (tx_body t) 2) &&
+  forallb (vupd_ok (cl_vals l)) (tx_vupd t).
 Definition cl_exec (l : cledger) (t : tx) : xres cledger :=
   if N.eqb (nonce_of (tx_signer t) (cl_nonces l)) (tx_nonce t) then
     if N.eqb (tx_body t) 0 then
-      XOk {| cl_nonces := nonce_bump (tx_signer t) (cl_nonces l); cl_log := cl_log l ++ [tx_id t];
-             cl_height := cl_height l |}
+      match vupd_apply (cl_vals l) (tx_vupd t) with
+      | Some vs =>
+          XOk {| cl_nonces := nonce_bump (tx_signer t) (cl_nonces l); cl_log := cl_log l ++ [tx_id t];
+                 cl_height := cl_height l; cl_time := cl_time l; cl_nvh := cl_nvh l; cl_vals := vs;
+                 cl_block := cl_block l |}
+      | None => XFail
+      end
     else if N.eqb (tx_body t) 3 then XSoft
     else XFail
   else XFail.
-Definition cl_post (l : cledger) (meta : N) : cledger * N := (l, 0).
+Definition cl_post (l : cledger) (hash : N) (m : bmeta) : cledger * N :=
+  ({| cl_nonces := cl_nonces l; cl_log := cl_log l; cl_height := cl_height l; cl_time := cl_time l;
+      cl_nvh := cl_nvh l; cl_vals := cl_vals l; cl_block := (hash, m_proposer m) |}, 0).
 Definition cl_commit_of (l : cledger) (txs : list tx) : list N := map tx_id txs.
-Definition cl_uh_at (meta : N) : N := 0.
-(** the drivers fold the block height into the meta value as its leading digits *)
-Definition cl_height_of (meta : N) : N := meta / 100000000.
+Definition cl_uh_at (m : bmeta) : N := 0.
+Definition cl_height_of (m : bmeta) : N := m_height m.
 
 Definition c_state := state cledger.
 Definition c_app := app cledger N.
